@@ -24,7 +24,12 @@ META = {
         "dominating truthiness guard on the same expression, and no function annotated -> str returns such an "
         "attribute unguarded (hasattr() is not a guard: attrs always defines the attribute); (d) keyword round trip: "
         "the generator's _to_snake_case, folded over all Python keywords, appends the underscore that the runtime's "
-        "_to_camel_case strips (shared with C02)."),
+        "_to_camel_case strips (shared with C02); (e) sibling cross-check of the four flatten implementations (python, "
+        "rust, dotnet, testdata): each is folded (E5) on one synthetic inheritance lattice with own / extends / mixin / "
+        "diamond overrides and must give the reference flattening (one member per name, nearest declaration wins, the "
+        "model left unmodified); (f) anonymous literal types get one stable, non-empty name per occurrence, also "
+        "through inherited properties; (g) no module-level / class-level container or memo filled by plugin code "
+        "survives a run."),
     "trusted_base": ["attrs instances always have all declared attributes (hasattr is True for unset optionals)"],
     "assumptions": ["the metamodel is schema-valid (gate decided by C18)"],
     "not_decided": ["the outputs of the plugins on evolved metamodels (needs running them)",
